@@ -21,7 +21,7 @@ pub fn scenario(seed: u64, idx: u64) -> Scenario {
     }
     let root = if prefix.is_empty() { "root".to_string() } else { format!("{}/root", prefix) };
     let mut entries = vec![];
-    let in_names = ["a.txt", "page.html", "index.html", "d/index.html", "d/e/deep.txt"];
+    let in_names = ["a.txt", "page.html", "index.html", "d/index.html", "d/e/deep.txt", "h#x/in.txt", "q?y/in.txt", "%2e%2e/in.txt"];
     for (k, n) in in_names.iter().enumerate() {
         entries.push(Entry { path: format!("{}/{}", root, n), kind: EntryKind::File(Content::Gen { marker: format!("MARK-{:08x}-{}-\n", nonce, k), len: 120, seed: k as u64, binary: false }) });
     }
@@ -64,7 +64,7 @@ pub fn scenario(seed: u64, idx: u64) -> Scenario {
                 0 | 1 => "..".into(),
                 2 => ".".into(),
                 3 => "".into(),
-                4 => "d".into(),
+                4 => rng.pick(&["d", "d", "h#x", "q?y", "%2e%2e"]).to_string(),
                 5 => "e".into(),
                 6 => "%2e%2e".into(),
                 7 => rng.pick(&["%2E.", ".%2e", "..%2f", "....", "..;", "..%00", "%2e%2e%2f", "..\\"]).to_string(),
@@ -87,7 +87,9 @@ pub fn scenario(seed: u64, idx: u64) -> Scenario {
             segs.push(last);
         }
         let path = segs.join("/");
-        let target = match rng.below(10) {
+        let target = match rng.below(12) {
+            10 => format!("/h#x/{}?y=1", path),
+            11 => format!("/{}?y#z", path),
             0 => path.clone(),
             1 => format!("http://h/{}", path),
             2 => format!("//h/{}", path),
